@@ -91,6 +91,14 @@ func (b *Builder) event(c ssa.CallInstruction) (string, bool) {
 			if callee.Name() == "NeedSpace" {
 				return "", true // may flush, never blocks; not an event
 			}
+			// a transfer method the table does not know (a vector form added later): events of its
+			// direction with a framing this engine does not see
+			if strings.HasPrefix(callee.Name(), "Receive") {
+				return "?ANYSEQ", true
+			}
+			if strings.HasPrefix(callee.Name(), "Send") {
+				return "!ANYSEQ", true
+			}
 		}
 	}
 	switch callee.String() {
@@ -100,6 +108,42 @@ func (b *Builder) event(c ssa.CallInstruction) (string, bool) {
 		return "?Data", true
 	}
 	return "", false
+}
+
+// rawEvent: a store to the position fields of a p2p.Conn from outside package p2p is communication by
+// direct access to the connection's buffers: bytes of unknown framing are produced (WritePos) or consumed
+// (ReadStart).
+func rawEvent(ins ssa.Instruction) string {
+	st, ok := ins.(*ssa.Store)
+	if !ok {
+		return ""
+	}
+	fa, ok := st.Addr.(*ssa.FieldAddr)
+	if !ok {
+		return ""
+	}
+	if fn := ins.Parent(); fn == nil || fn.Pkg == nil || fn.Pkg.Pkg.Path() == load.Module+"/p2p" {
+		return ""
+	}
+	pkg, name := recvNamed(fa.X.Type())
+	if pkg != load.Module+"/p2p" || name != "Conn" {
+		return ""
+	}
+	pt, ok := fa.X.Type().Underlying().(*types.Pointer)
+	if !ok {
+		return ""
+	}
+	stt, ok := pt.Elem().Underlying().(*types.Struct)
+	if !ok {
+		return ""
+	}
+	switch stt.Field(fa.Field).Name() {
+	case "WritePos":
+		return "!RAW"
+	case "ReadStart":
+		return "?RAW"
+	}
+	return ""
 }
 
 func (b *Builder) communicates(f *ssa.Function) bool {
@@ -113,6 +157,9 @@ func (b *Builder) communicates(f *ssa.Function) bool {
 	res := false
 	for _, blk := range f.Blocks {
 		for _, ins := range blk.Instrs {
+			if rawEvent(ins) != "" {
+				res = true
+			}
 			c, ok := ins.(ssa.CallInstruction)
 			if !ok {
 				continue
@@ -448,8 +495,27 @@ func (b *Builder) Build(n *NFA, f *ssa.Function, stack []*ssa.Function) (entry, 
 			switch t := ins.(type) {
 			case *ssa.Go, *ssa.Defer:
 				continue
+			case *ssa.Store:
+				if s := rawEvent(t); s != "" && !inCollapsed {
+					// zero or more events of that direction, of unknown types
+					r, nx := n.state(), n.state()
+					n.add(cur, r, "")
+					n.add(r, r, s[:1]+"ANY")
+					n.add(r, nx, "")
+					cur = nx
+					b.EventSites++
+				}
 			case ssa.CallInstruction:
 				if s, ok := b.event(t); ok {
+					if strings.HasSuffix(s, "ANYSEQ") && !inCollapsed {
+						r, nx := n.state(), n.state()
+						n.add(cur, r, "")
+						n.add(r, r, s[:1]+"ANY")
+						n.add(r, nx, "")
+						cur = nx
+						b.EventSites++
+						continue
+					}
 					if s != "" && !inCollapsed {
 						nx := n.state()
 						n.add(cur, nx, s)
